@@ -402,3 +402,178 @@ Proof.
       * eexists _, _. split; [reflexivity|reflexivity].
     + cbn [st_bonus length]. lia.
 Qed.
+
+(* ---------- the arms of step, state by state ---------- *)
+Ltac step_unfold := unfold step; cbv zeta; cbn [pdata pst_ pmixed pparent ptape].
+
+Lemma step_SKey : forall d m p t, chainrep t p -> post (2 * length d) (step (mkps d SKey m p t)).
+Proof.
+  intros d m p t C. step_unfold.
+  destruct (skip_ws_t d) as [d0|] eqn:Hws.
+  2: { destruct (Nat.eqb_spec p 0) as [->|Np].
+       - cbn [post]. apply chainrep_top; assumption.
+       - destruct (Nat.eqb_spec (slot t p) 0) as [Es|Ns]; [|exact I].
+         destruct (close_key t p false C ltac:(tauto)) as (t' & -> & C' & _).
+         cbn [post]. apply chainrep_top. rewrite <- Es. exact C'. }
+  destruct (skip_ws_t_len _ _ Hws) as [Nd0 Ld0].
+  destruct d0 as [|c d1]; [congruence|]. cbn [length] in Ld0.
+  destruct (beq c 125 || beq c 93).
+  - destruct (restore t (slot t p)) as [st' m'] eqn:Hr.
+    destruct (Nat.eqb_spec p 0) as [->|Np]; cbn [andb].
+    + destruct (Nat.eqb_spec (slot t 0) 0) as [Es|Ns].
+      * apply post_next.
+        -- destruct (restore_cases _ _ _ _ Hr) as [->|[-> N]]; cbn [inv]; auto.
+        -- destruct (restore_cases _ _ _ _ Hr) as [->|[-> N]]; cbn [st_bonus]; lia.
+      * exfalso. apply Ns. eapply chainrep_slot0; eauto.
+    + destruct (close_key t p m C ltac:(tauto)) as (t' & -> & C' & N').
+      apply post_next; [eapply inv_restore; eauto|].
+      destruct (restore_cases _ _ _ _ Hr) as [->|[-> _]]; cbn [st_bonus]; lia.
+  - destruct (beq c 123).
+    + destruct (skip_ws_t d1) as [d2|] eqn:Hws2; [|exact I].
+      destruct (skip_ws_t_len _ _ Hws2) as [Nd2 Ld2].
+      rewrite match_b125. destruct d2 as [|c2 d3]; [congruence|]. cbn [length] in Ld2.
+      destruct (N.eqb c2 125).
+      * apply post_next; [exact C|cbn [st_bonus]; lia].
+      * destruct (tlast t) as [x|] eqn:Hl; [|exact I].
+        destruct x; try exact I.
+        destruct (tlast_some _ _ Hl) as (t1 & ->).
+        rewrite app_length. cbn [length]. replace (length t1 + 1 - 1) with (length t1) by lia.
+        rewrite tset_last.
+        apply post_next.
+        -- cbn [inv]. exists (t1 ++ [THeader s]). split; [reflexivity|]. split; [destruct t1; discriminate|].
+           apply chainrep_push_plain; [|reflexivity]. eapply chainrep_snoc_inv; eauto.
+        -- cbn [st_bonus length]. lia.
+    + destruct (beq c 91).
+      * apply post_keep_mixed. apply parse_param_post; [cbn [length]; lia|exact C].
+      * pose proof (scalar_step_spec (c :: d1) c ltac:(discriminate)) as P.
+        destruct (scalar_step (c :: d1) c) as [[tok d']| | | |]; try exact I; try contradiction.
+        destruct P as [Pt Pl]. cbn [length] in Pl.
+        apply post_next.
+        -- cbn [inv]. split; [apply chainrep_push_plain; assumption|].
+           eexists _, _. split; [reflexivity|assumption].
+        -- cbn [st_bonus]. lia.
+Qed.
+
+Lemma snoc_nonnil : forall (A : Type) (l : list A) x, l ++ [x] <> [].
+Proof. intros A l x. destruct l; discriminate. Qed.
+
+Lemma chainrep_insert_mixed : forall t1 x p,
+  chainrep (t1 ++ [x]) p -> plainb x = true -> chainrep (t1 ++ [TMixedContainer; x]) p.
+Proof.
+  intros t1 x p C Px. apply chainrep_app_closed.
+  - eapply chainrep_snoc_inv; eauto.
+  - apply cl_plain; [reflexivity|]. apply closed_one_plain. assumption.
+Qed.
+
+Lemma step_SKvs : forall d m p t, inv SKvs p t -> post (2 * length d + 1) (step (mkps d SKvs m p t)).
+Proof.
+  intros d m p t [C (t1 & x & -> & Px)]. step_unfold.
+  destruct (skip_ws_t d) as [d0|] eqn:Hws; [|exact I].
+  destruct (skip_ws_t_len _ _ Hws) as [Nd0 Ld0].
+  destruct d0 as [|c d1]; [congruence|].
+  pose proof (snoc_nonnil _ t1 x) as Nt.
+  destruct (op2 (c :: d1)) as [[o n]|] eqn:Hop.
+  - destruct (op2_spec _ _ _ Hop) as [n1 n2].
+    assert (L : length (skipn n (c :: d1)) < length (c :: d1)) by (rewrite skipn_length; lia).
+    assert (G1 : forall o', post (2 * length d + 1)
+              (Next (mkps (skipn n (c :: d1)) SObjVal m p (tpush (t1 ++ [x]) (TOperator o'))))).
+    { intros o'. apply post_next; [|cbn [st_bonus]; lia].
+      cbn [inv]. split; [apply chainrep_push_plain; [assumption|reflexivity]|apply snoc_nonnil]. }
+    destruct o; try apply G1.
+    destruct m.
+    + apply post_next; [|cbn [st_bonus]; lia].
+      cbn [inv]. split; [apply chainrep_push_plain; [assumption|reflexivity]|].
+      eexists _, _. split; reflexivity.
+    + apply post_next; [|cbn [st_bonus]; lia]. cbn [inv]. auto.
+  - match goal with |- context [if ?cond then _ else _] => destruct cond end.
+    + apply post_next; [|cbn [st_bonus]; rewrite skipn_length; cbn [length] in *; lia].
+      cbn [inv]. split; [apply chainrep_push_plain; [assumption|reflexivity]|apply snoc_nonnil].
+    + destruct (beq c 123).
+      * apply post_next; [|cbn [st_bonus]; lia]. cbn [inv]. auto.
+      * rewrite tinsert_snoc. apply post_next; [|cbn [st_bonus]; lia].
+        cbn [inv]. split; [apply chainrep_insert_mixed; assumption|].
+        destruct t1; discriminate.
+Qed.
+
+Lemma step_SObjVal : forall d m p t, inv SObjVal p t -> post (2 * length d) (step (mkps d SObjVal m p t)).
+Proof.
+  intros d m p t [C Nt]. step_unfold.
+  destruct (skip_ws_t d) as [d0|] eqn:Hws; [|exact I].
+  destruct (skip_ws_t_len _ _ Hws) as [Nd0 Ld0].
+  destruct d0 as [|c d1]; [congruence|]. cbn [length] in Ld0.
+  destruct (beq c 123).
+  - apply post_next; [|cbn [st_bonus]; lia]. cbn [inv]. exists t. auto.
+  - destruct (beq c 125); [exact I|].
+    pose proof (scalar_step_spec (c :: d1) c ltac:(discriminate)) as P.
+    destruct (scalar_step (c :: d1) c) as [[tok d']| | | |]; try exact I; try contradiction.
+    destruct P as [Pt Pl]. cbn [length] in Pl.
+    apply post_next; [|cbn [st_bonus]; lia].
+    cbn [inv]. apply chainrep_push_plain; assumption.
+Qed.
+
+Lemma scalar_tok_plain : forall x, is_scalar_tok x = true -> plainb x = true.
+Proof. destruct x; cbn; congruence. Qed.
+
+Lemma step_SArrVal : forall d m p t, inv SArrVal p t -> post (2 * length d) (step (mkps d SArrVal m p t)).
+Proof.
+  intros d m p t [C Nt]. step_unfold.
+  destruct (skip_ws_t d) as [d0|] eqn:Hws; [|exact I].
+  destruct (skip_ws_t_len _ _ Hws) as [Nd0 Ld0].
+  destruct d0 as [|c d1]; [congruence|].
+  assert (GS : post (2 * length d)
+     match scalar_step (c :: d1) c with
+     | Ok (tok, d') => Next (mkps d' SArrVal m p (tpush t tok))
+     | Err e => Fail e
+     | _ => Crash 3037%N
+     end /\ post (2 * length d)
+     match scalar_step (c :: d1) c with
+     | Ok (tok, d') => Next (mkps d' SArrVal m p (tpush t tok))
+     | Err e => Fail e
+     | _ => Crash 3038%N
+     end).
+  { pose proof (scalar_step_spec (c :: d1) c ltac:(discriminate)) as P.
+    destruct (scalar_step (c :: d1) c) as [[tok d']| | | |]; try contradiction; try (split; exact I).
+    destruct P as [Pt Pl].
+    assert (G : post (2 * length d) (Next (mkps d' SArrVal m p (tpush t tok)))).
+    { apply post_next; [|cbn [st_bonus]; lia].
+      cbn [inv]. split; [apply chainrep_push_plain; assumption|apply snoc_nonnil]. }
+    split; exact G. }
+  destruct GS as [GS1 GS2].
+  cbn [length] in Ld0.
+  destruct (beq c 123).
+  { apply post_next; [|cbn [st_bonus]; lia]. cbn [inv]. exists t. auto. }
+  destruct (beq c 125).
+  { destruct (Nat.eq_dec p 0) as [->|Np].
+    - destruct (tget t 0) as [x|] eqn:E.
+      + pose proof (chainrep_head _ _ _ C E) as Hx.
+        destruct x; cbn in Hx; try discriminate; cbv beta match;
+          destruct (restore t 0); cbn [Nat.eqb andb]; exact I.
+      + cbv beta match. destruct (restore t 0); cbn [Nat.eqb andb]; exact I.
+    - destruct (close_arr t p C ltac:(tauto)) as (c0 & E & Hc & K). rewrite E.
+      assert (Nt' : forall t', tpush t' (TEnd p) <> []) by (intros; apply snoc_nonnil).
+      destruct c0; cbn in Hc; try discriminate; injection Hc as Hc; subst e; cbv beta match;
+        destruct (restore t (slot t p)) as [st' m'] eqn:Hr;
+        (destruct (Nat.eqb_spec p 0); [contradiction|]); cbn [andb].
+      + destruct (K (TArray (length t) m) eq_refl) as (t' & -> & C').
+        apply post_next; [eapply inv_restore; eauto|].
+        destruct (restore_cases _ _ _ _ Hr) as [->|[-> _]]; cbn [st_bonus]; lia.
+      + destruct (K (TObject (length t) m) eq_refl) as (t' & -> & C').
+        apply post_next; [eapply inv_restore; eauto|].
+        destruct (restore_cases _ _ _ _ Hr) as [->|[-> _]]; cbn [st_bonus]; lia. }
+  destruct (beq c 34 || beq c 64); [exact GS1|].
+  match goal with |- context [if ?cond then _ else _] => destruct cond end; [|exact GS2].
+  destruct m.
+  - destruct (op2 (c :: d1)) as [[o n]|] eqn:Hop; [|exact I].
+    destruct (op2_spec _ _ _ Hop) as [n1 n2].
+    apply post_next; [|cbn [st_bonus]; rewrite skipn_length; cbn [length] in *; lia].
+    cbn [inv]. split; [apply chainrep_push_plain; [assumption|reflexivity]|apply snoc_nonnil].
+  - destruct (tlast t) as [x|] eqn:Hl; [|exact I].
+    destruct (is_scalar_tok x) eqn:Hs; [|exact I].
+    destruct (tlast_some _ _ Hl) as (t1 & ->). rewrite tinsert_snoc.
+    destruct (op2 (c :: d1)) as [[o n]|] eqn:Hop; [|exact I].
+    destruct (op2_spec _ _ _ Hop) as [n1 n2].
+    apply post_next; [|cbn [st_bonus]; rewrite skipn_length; cbn [length] in *; lia].
+    cbn [inv]. split; [|apply snoc_nonnil].
+    apply chainrep_push_plain; [|reflexivity].
+    apply chainrep_insert_mixed; [assumption|]. apply scalar_tok_plain. assumption.
+Qed.
